@@ -1541,7 +1541,8 @@ class LuaFormatterWriter(LuaASTEchoWriter):
 
         # Remove excess trailing whitespace at end of file.
         if self._pos == len(self._tokens):
-            spaces = re.sub(br'[ \n]+\Z', b'\n', spaces)
+            spaces = re.sub(br' +\Z', b'', spaces)
+            spaces = re.sub(br'\n+\Z', b'\n', spaces)
 
         # TODO: same-line spacing patterns:
         # - one space before and after binop
